@@ -152,7 +152,7 @@ fn long_run(dir: u8, max_k: i32, max_off_x: i32, max_off_y: i32) {
     }
 }
 
-//@ harness: o9_1_run_horizontal props=C09,C03 tier=quick obl=O9.1 timeout=1500 mem=12
+//@ harness: o9_1_run_horizontal props=C09,C03 tier=quick obl=O9.1 timeout=1500 mem=8
 //@ desc: horizontal family (- ~ _ = rails): run of k cells (k symbolic 1..60) at any lattice origin within 64x64 cells merges with the next cell's segment into the exact hull, either call order; dashed iff a part is dashed
 //@ encodes: Line::merge, Line::can_merge, Line::is_touching, util::is_collinear, parry Segment::contains_point
 #[kani::proof]
@@ -160,7 +160,7 @@ fn o9_1_run_horizontal() {
     long_run(0, 60, 64, 64);
 }
 
-//@ harness: o9_1_run_vertical props=C09,C03 tier=quick obl=O9.1 timeout=1500 mem=12
+//@ harness: o9_1_run_vertical props=C09,C03 tier=quick obl=O9.1 timeout=1500 mem=8
 //@ desc: vertical family (| : !): run of k cells (1..60) at any lattice origin within 64x64 cells merges with the next cell's segment into the exact hull
 //@ encodes: Line::merge, Line::can_merge, Line::is_touching, util::is_collinear, parry Segment::contains_point
 #[kani::proof]
@@ -168,7 +168,7 @@ fn o9_1_run_vertical() {
     long_run(1, 60, 64, 64);
 }
 
-//@ harness: o9_1_run_slash props=C09 tier=quick obl=O9.1 timeout=1800 mem=12
+//@ harness: o9_1_run_slash props=C09 tier=quick obl=O9.1 timeout=1800 mem=8
 //@ desc: slash family (/): run of k cells (1..60) at any lattice origin within 64x64 cells merges with the next cell's segment into the exact hull
 //@ encodes: Line::merge, Line::can_merge, Line::is_touching, util::is_collinear, parry Segment::contains_point
 #[kani::proof]
@@ -176,7 +176,7 @@ fn o9_1_run_slash() {
     long_run(2, 60, 64, 64);
 }
 
-//@ harness: o9_1_run_backslash props=C09 tier=quick obl=O9.1 timeout=1800 mem=12
+//@ harness: o9_1_run_backslash props=C09 tier=quick obl=O9.1 timeout=1800 mem=8
 //@ desc: backslash family (\): run of k cells (1..60) at any lattice origin within 64x64 cells merges with the next cell's segment into the exact hull
 //@ encodes: Line::merge, Line::can_merge, Line::is_touching, util::is_collinear, parry Segment::contains_point
 #[kani::proof]
@@ -271,7 +271,7 @@ fn o9_2_can_merge_exact_48() {
     exactness(48, 48, 400, 200);
 }
 
-//@ harness: o3_3_merge_pointset props=C03,C09 tier=quick obl=O3.3 timeout=1800 mem=12
+//@ harness: o3_3_merge_pointset props=C03,C09 tier=quick obl=O3.3 timeout=1800 mem=8
 //@ desc: two lattice lines of the same axis class (horizontal or vertical), interval ends in 0..64 quarter units + cell offset <= 64: Line::merge = Some(l) => l covers exactly the union of both intervals (which is itself an interval) and is dashed iff one part is; None => the intervals do not touch or lie on different rows/columns
 //@ encodes: Line::merge, Line::can_merge
 #[kani::proof]
@@ -381,7 +381,7 @@ fn line_shift(max_len: i32, max_pos: i32, max_k: i32, max_n: i32) {
 // ---------------------------------------------------------------------------
 // C14 — bullets: line + circle => marker line ending at the circle centre
 
-//@ harness: o14_4_merge_circle props=C14 tier=quick obl=O14.4 timeout=1800 mem=12
+//@ harness: o14_4_merge_circle props=C14 tier=quick obl=O14.4 timeout=1800 mem=8
 //@ desc: axis-parallel or diagonal lattice line (length 1..40 cells) whose one end is within half a cell of a bullet circle's centre m (cell at offset <= 64x64): merge_circle yields a MarkerLine from the far end to exactly the circle centre, marker Circle/OpenCircle/BigOpenCircle by is_filled/radius, dashedness kept; atan stubbed by atan_axis (libm value +-1e-4 for the slopes 0, +-2, +-4, +-inf that lattice lines have; any f32 otherwise)
 //@ encodes: Line::merge_circle, Line::heading, Direction::threshold_length, fragment::marker_line
 #[kani::proof]
